@@ -19,6 +19,10 @@ tvars == <<cur>>
 TraceInit == cur = 1 /\ TLCSet(1, <<>>) /\ TLCSet(2, 0) /\ TLCSet(3, 0) /\ TLCSet(4, {})
 
 \* ---------------------------------------------------------------- judgements
+\* an evaluator that did not return ("hang", isolated mode of the harness) or was not run after one that hung
+Abn(cs, g, ev, res) == IF res.m = "not-run" THEN <<>>
+                       ELSE << [i |-> cur, as |-> g.as, ev |-> ev, kind |-> IF res.m = "hang" THEN "hang" ELSE "panic",
+                                loc |-> Locus(cs.path, cs.data, cs.fx), m |-> res.m] >>
 Dev(cs, g, ev, kind, msg) == [i |-> cur, as |-> g.as, ev |-> ev, kind |-> kind, loc |-> Locus(cs.path, cs.data, cs.fx), m |-> msg]
 
 \* the recorded last-position choice of every slice fragment (see JsonPath!ProbeOK)
@@ -28,13 +32,13 @@ ProbeDevs(cs) == IF ProbeBad(cs) = {} THEN <<>>
                  ELSE LET pn == CHOOSE x \in ProbeBad(cs) : TRUE
                           f == cs.path[pn[1]] IN
                       << [i |-> cur, as |-> <<"simple/probe">>, ev |-> "Get", kind |-> "wrong-selection", m |-> "",
-                          loc |-> [frag |-> "slice", pos |-> "only", cont |-> "arr",
+                          loc |-> [frag |-> "slice", pos |-> "only", cont |-> "arr", pre |-> "single",
                                    bound |-> <<BCls(f.sa, f.s, pn[2]), BCls(f.ea, f.e, pn[2]), SCls(f),
                                                IF SliceStrict(f, pn[2]) THEN "strict" ELSE "open", "probe">>]] >>
 
 KindOf(j) == CASE j = "extra" -> "selects-extra" [] j = "fewer" -> "selects-fewer" [] j = "order" -> "order" [] OTHER -> "wrong-selection"
 GetDev(cs, g, res, ev, distinct) ==
-  IF res.p THEN << Dev(cs, g, ev, "panic", res.m) >>
+  IF res.p THEN Abn(cs, g, ev, res)
   ELSE LET j == JudgeGet(cs.path, cs.data, res.r, distinct) IN
        IF j = "ok" THEN <<>> ELSE << Dev(cs, g, ev, KindOf(j), "") >>
 
@@ -43,12 +47,12 @@ FirstOK(E, path, r) == IF E = <<>> THEN r = Null
                        ELSE IF OrderDefined(E, path) THEN r = E[1].val
                        ELSE \E q \in 1..Len(E) : E[q].val = r
 FirstDev(cs, g, res, ev, E, needFound) ==
-  IF res.p THEN << Dev(cs, g, ev, "panic", res.m) >>
+  IF res.p THEN Abn(cs, g, ev, res)
   ELSE IF needFound /\ res.h # (E # <<>>) THEN << Dev(cs, g, ev, "wrong-found", "") >>
   ELSE IF FirstOK(E, cs.path, res.r) THEN <<>> ELSE << Dev(cs, g, ev, "wrong-first", "") >>
 
 HasDev(cs, g, res, E) ==
-  IF res.p THEN << Dev(cs, g, "Has", "panic", res.m) >>
+  IF res.p THEN Abn(cs, g, "Has", res)
   ELSE IF res.h = (E # <<>>) THEN <<>> ELSE << Dev(cs, g, "Has", IF res.h THEN "has-without-match" ELSE "misses-match", "") >>
 
 \* a reported normalised path resolved against the data (a negative index is still Normal())
@@ -71,7 +75,7 @@ LocateOK(cs, res, max, E) ==
   /\ IF max = 0 THEN (\A q \in 1..Len(L) : \E j \in 1..Len(R) : R[j].loc = L[q]) /\ Len(R) <= Len(L)
      ELSE Len(R) = Min2(max, Len(L)) \/ (dup /\ Len(R) = Min2(max, NDistinct(L)))
 LocateDev(cs, g, res, max, ev, E) ==
-  IF res.p THEN << Dev(cs, g, ev, "panic", res.m) >>
+  IF res.p THEN Abn(cs, g, ev, res)
   ELSE IF LocateOK(cs, res, max, E) THEN <<>> ELSE << Dev(cs, g, ev, "wrong-locations", "") >>
 
 WalkOK(cs, res, E) ==
@@ -84,7 +88,7 @@ WalkOK(cs, res, E) ==
         /\ \A q \in 1..Len(nodes) : nodes[q] = At(cs.data, SubSeq(RL[j], 1, q - 1))
   /\ (SameBag(RL, LocsOnly(E)) \/ (UnionDup(cs.path) /\ SameBag(RL, LocsOnly(Dedup(E)))))
 WalkDev(cs, g, res, E) ==
-  IF res.p THEN << Dev(cs, g, "Walk", "panic", res.m) >>
+  IF res.p THEN Abn(cs, g, "Walk", res)
   ELSE IF WalkOK(cs, res, E) THEN <<>> ELSE << Dev(cs, g, "Walk", "wrong-callbacks", "") >>
 
 JudgeC05(cs) ==
